@@ -179,3 +179,37 @@ def c15_cases(rng, count):
         lines += ["%p", "u", "%p", "q!"]
         out.append(case([("fa", content)], ["fa"], lines))
     return out
+
+EXWORDS = ["a", "i", "c", "d", "y", "pu", "p", "=", "k", "m", "co", "t", "s", "g", "v", "g!", "u", "redo", "rs", "ra", "r", "w", "w!", "q", "q!", "x", "wq", "e", "e!", "ew", "b", "n", "prev",
+           "se", "set", "ft", "cm", "cm!", "make", "ta", "pop", "ac", "!", "@", "ec", "left", "right", "kmap", "kmap!", "", "zz", "1", "$", "%", ".", "se ic", "se noic", "se ai", "se hl", "se nohl",
+           "se hll", "se order=0", "se order=2", "se shape=0", "se lim=5", "se lim=-1", "se led", "se noled", "se td=2", "se td=-2", "se td=0", "se ru=0", "se hist=5", "se hist=0", "se aw", "se wa"]
+def junk_ex_cases(rng, count):
+    """nonsensical, truncated and over-long ex command lines (C05): every address form in and out of range,
+    every command name and option, arguments of random printable / multi-byte text, lines around and beyond
+    the 512-byte limit, empty buffers"""
+    out = []
+    pieces = ["/", "?", "\\", "|", "%", "#", "'", "\"", "+", "-", ",", ";", " ", "0", "9", "99999", "a", "é", "日", "\\(", "\\)", "[", "]", "*", "^", "$", ".", "&", "~", "{", "}", "<", ">", "=", "!", "@", "\t"]
+    for _ in range(count):
+        content = rand_content(rng) if rng.below(5) else None
+        lines = []
+        for _ in range(1 + rng.below(8)):
+            m = rng.below(10)
+            if m < 5:
+                l = region(rng, 5) + rng.choice(EXWORDS)
+                if rng.below(2): l += rng.choice([" ", ""]) + "".join(rng.choice(pieces) for _ in range(rng.below(8)))
+            elif m < 7:
+                l = "".join(rng.choice(pieces + EXWORDS) for _ in range(rng.below(20)))
+            elif m == 7:
+                n = rng.choice([500, 509, 510, 511, 512, 513, 520, 1023, 1024, 2000])
+                body = rng.choice(["s/a/", "g/x/", "a ", "e ", "w ", "!", "", "1,2", "se ", "ft ", "/"])
+                l = body + rng.choice(["x", "é", "a|", "\\", "/"]) * n
+                l = l[:n + len(body)]
+            elif m == 8:
+                l = rng.choice(["a", "i", "c"]); lines.append(region(rng, 5) + l); lines += text_block(rng); continue
+            else:
+                l = rng.choice(["s", "s/", "s//", "s///", "s/a", "s/a/b", "s/\\(/x/", "s/[/x/", "s/a\\{1,2\\}/x/", "s/a{1,0}/x/", "s/a/\\9/", "s/x*/-/g", "g/", "g//", "g/a/", "g/a/g/b/g/c/d", "v/a/s//b/",
+                                "@a", "@@", "@", "k", "k aa", "'", "''a", "1,", ",", ";", ",,,", "+++", "---", "1;2;3", "$+1", "0", "0d", "0a", "-5", "+5", "w /", "e /", "r /nonexistent", "b 99", "b -", "b +", "ra x", "rs", "ec"])
+            lines.append(l)
+        lines.append("q!")
+        out.append(case([("fa", content)], ["fa"], lines))
+    return out
